@@ -1,7 +1,7 @@
 (* Property C06 — `the` returns the unique solution or raises, consistently with `an`.
    Only statements, `exact`, and Print Assumptions.  U = the variables of the description, ALL selected;
    [the_of rows] is the model of The._evaluate_: consume the rows of the description, fail on the second, fail if none. *)
-From EQL Require Import Base Values Syntax Spec Elab Elab_Facts EvalPure EvalPure_Facts Query_Facts Elab_Frag Quant_Facts.
+From EQL Require Import Base Values Syntax Spec Generated Elab Elab_Facts EvalPure EvalPure_Facts Query_Facts Elab_Frag Quant_Facts Dedup Dedup_Facts.
 
 (* NoSolutionFound exactly when no assignment of the product satisfies the description *)
 Theorem C06_none : forall h dom U, (forall x, In x U -> NoDup (dom x)) -> forall c, basic U c = true ->
@@ -40,3 +40,17 @@ Example C06_nonvacuous :
   the_of (run_query h (d [VObj 0; VObj 1]) [TVar 1] (Some c)) = OValue [VObj 1] /\
   the_of (run_query h (d [VObj 0; VObj 1; VObj 2]) [TVar 1] (Some c)) = OMany.
 Proof. vm_compute. repeat split. Qed.
+
+(* RE-EVALUATION and evaluation after other queries: the(...) starts from an empty de-duplication state whatever was evaluated - or
+   abandoned with its iterator still referenced - before, on nodes this description shares with other queries (An.evaluate AND
+   The.evaluate reset before they evaluate: read from the source by the translator on every run), and the rows of a full evaluation
+   do not depend on the state left behind (Dedup_Facts.history_rows_independent, for any history of full / partial evaluations) *)
+Theorem C06_reset_at_start : evaluation_resets_dedup_state_at_start = true.
+Proof. exact evaluation_resets_at_start. Qed.
+Print Assumptions C06_reset_at_start.
+
+Theorem C06_rows_independent_of_history : forall h dom leftover sel c steps i s,
+  history_rows h dom leftover sel c steps i s =
+  map (fun st : option nat * bool => match fst st with None => run_queryD h dom sel c | Some n => firstn n (run_queryD h dom sel c) end) steps.
+Proof. exact history_rows_independent. Qed.
+Print Assumptions C06_rows_independent_of_history.
